@@ -269,8 +269,9 @@ CHECKS = {
             'history can build, cycles included (invariant of the breadth-first waves + the measure that every wave that '
             'does not answer sees a new position: size + 1 waves are enough); dependencies_rec_reads: when the work-list loop of dependencies(recurse=True) returns it has collected '
             'exactly the nodes reachable in one step or more (partial correctness by a loop invariant; the model budget '
-            'running out would be a disagreement). The recursion of flatten(recurse=True) over nested levels is in the executable model and checked against DepGraph and against the set-level '
-            'oracle on every run, without theorems.',
+            'running out would be a disagreement). That flatten(recurse=True) returns is a theorem (flatten_returns); that the result of several levels preserves the ordering '
+            'constraints is proved round by round (grafts_preserve_order) and checked as a whole against DepGraph and the set-level '
+            'oracle on every run.',
             'Trusted: Lean kernel + standard axioms; correspondence sampled (exhaustive <= 4 nodes in thorough); node '
             'identity = Python id(); topological order compared for validity, not equality; graft/flatten only on '
             'acyclic expansions; c16_pinned_refuted keeps the pinned graft (A19) refuted.',
